@@ -134,6 +134,17 @@ impl TilesReaderTrait for MemReader {
 	async fn get_tile_data(&self, coord: &TileCoord3) -> Result<Option<Blob>> {
 		Ok(self.tiles.get(&(coord.z, coord.x, coord.y)).map(|v| Blob::from(v.clone())))
 	}
+	/// the stored tiles inside the box (the trait default would visit every coordinate of the box, which never ends
+	/// for sparse tiles at zoom 31)
+	async fn get_bbox_tile_stream(&self, bbox: versatiles_core::types::TileBBox) -> versatiles_core::types::TileStream {
+		let v: Vec<(TileCoord3, Blob)> = self
+			.tiles
+			.iter()
+			.filter(|((z, x, y), _)| *z == bbox.level && bbox.contains3(&TileCoord3::new(*x, *y, *z).unwrap()))
+			.map(|((z, x, y), b)| (TileCoord3::new(*x, *y, *z).unwrap(), Blob::from(b.clone())))
+			.collect();
+		versatiles_core::types::TileStream::from_vec(v)
+	}
 }
 
 pub fn runtime() -> tokio::runtime::Runtime {
@@ -192,6 +203,15 @@ pub fn payload_classes(seed: u64, format: TileFormat) -> Payloads {
 			("one_byte_far", (9, 300, 301), vec![0x42]), // second block of a level
 			("zeros_999", (9, 301, 300), vec![0u8; 999]),
 			("zeros_1000", (9, 300, 300), vec![0u8; 1000]), // around the <1000 byte de-dup threshold
+			// identical small payloads on both sides of a 256-block border of ONE level (x = 254 | 257 at zoom 9): the
+			// de-duplication of the versatiles writer stores block-relative ranges and must not leak across blocks
+			// (seeded regression C04-5); the padding tiles make the relative offsets of the two blocks differ
+			("border_pad_block0", (9, 250, 300), (0..700u32).map(|i| (i * 13 % 251) as u8).collect()),
+			("border_dup_block0", (9, 254, 300), b"same small payload on both sides of the block border".to_vec()),
+			("border_dup_block1", (9, 257, 300), b"same small payload on both sides of the block border".to_vec()),
+			("border_other_block1", (9, 258, 300), (0..300u32).map(|i| (i * 29 % 241) as u8).collect()),
+			("border_dup_block1_again", (9, 259, 301), b"same small payload on both sides of the block border".to_vec()),
+			("border_dup_row_block", (9, 254, 301), vec![0x42]), // equals `one_byte_far` (9,300,301) in the next block
 	];
 	base.append(&mut list);
 	Payloads { list: base }
